@@ -1,6 +1,248 @@
-//! C24: not implemented yet.
+//! C24: contexts are isolated and safe to share across threads.
+//!
+//! case: {contexts:[{settings:{..}, signer_alg:"es256"|null}], threads:[[op..]..], assets:{name:{fixture,fmt}}}
+//!   op: {op:"read", ctx, asset}            Reader::from_shared_context(ctx).with_stream
+//!       {op:"sign", ctx, asset, title}     Builder::from_shared_context(ctx) + ctx.signer()
+//!       {op:"cancel", ctx} {op:"check", ctx}
+//!       {op:"signer", ctx} {op:"resolver", ctx}      the write-once cells (address of what they return)
+//!       {op:"builder", json|toml|path+value}        Settings builder API (must not touch the thread-local settings)
+//!       {op:"tls_set", toml}  {op:"tls_get"}         legacy thread-local entry points
+//!       {op:"legacy_read", asset}                    deprecated Reader::from_stream (reads the thread-local settings)
+//!     every op: pre_us (sleep before), yields (thread::yield_now calls before)
+//! The harness runs the programs twice on freshly built contexts: `conc` = one OS thread per program, all released by
+//! a barrier; `seq` = the same programs one OS thread after the other (each joined before the next starts).
+//! out: {r, conc:{ops:[{t,i,start,end,res}], final:[{cancelled}], tls:[digest per thread]}, seq:{..}}
+use std::{
+    io::Cursor,
+    sync::{
+        atomic::{AtomicUsize, Ordering},
+        Arc, Barrier,
+    },
+};
+
+use c2pa::{Builder, Context, Reader, Settings};
 use serde_json::{json, Value};
 
-pub fn run(_case: &Value) -> Value {
-    json!({"r": "unimplemented"})
+use crate::{e2e, util::*};
+
+fn sha(b: &[u8]) -> String {
+    let d = c2pa::hash_stream_by_alg("sha256", &mut Cursor::new(b.to_vec()), None, true).unwrap_or_default();
+    hex::encode(&d[..8.min(d.len())])
+}
+
+fn make_context(spec: &Value) -> Arc<Context> {
+    let mut s = spec["settings"].clone();
+    if !s.is_object() {
+        s = json!({});
+    }
+    if let Some(alg) = spec["signer_alg"].as_str() {
+        let cert = String::from_utf8(e2e::fixture(&format!("certs/{alg}.pub"))).expect("utf8");
+        let key = String::from_utf8(e2e::fixture(&format!("certs/{alg}.pem"))).expect("utf8");
+        s["signer"] = json!({"local": {"alg": alg, "sign_cert": cert, "private_key": key}});
+    } else if spec["no_signer"].as_bool().unwrap_or(false) {
+        s["signer"] = Value::Null;
+    }
+    Arc::new(e2e::context_merged(Some(&s.to_string())))
+}
+
+#[allow(deprecated)]
+fn tls_digest() -> String {
+    match Settings::to_toml() {
+        Ok(t) => sha(t.as_bytes()),
+        Err(e) => format!("err:{}", err_class(&e)),
+    }
+}
+
+fn read_summary(r: &Reader) -> Value {
+    let rep = e2e::report(r);
+    json!({"k": "ok", "state": rep["state"], "failure": rep["failure"], "digest": sha(e2e::stable_json(r).to_string().as_bytes())})
+}
+
+fn err_value(e: &c2pa::Error) -> Value {
+    json!({"k": "err", "kind": err_class(e)})
+}
+
+fn signed_summary(fmt: &str, bytes: &[u8]) -> Value {
+    // read back with a neutral context, outside the timed section
+    match e2e::read(e2e::context_merged(None), fmt, bytes) {
+        Ok(r) => {
+            let v = e2e::stable_json(&r);
+            let active = r.active_label().unwrap_or("").to_string();
+            let m = &v["manifests"][&active];
+            let mut labels: Vec<String> = m["assertions"].as_array().map(|a| a.iter().map(|x| x["label"].as_str().unwrap_or("").to_string()).collect()).unwrap_or_default();
+            labels.sort();
+            let cgi: Vec<String> = m["claim_generator_info"].as_array().map(|a| a.iter().map(|x| x["name"].as_str().unwrap_or("").to_string()).collect()).unwrap_or_default();
+            json!({"k": "ok", "state": format!("{:?}", r.validation_state()), "title": m["title"], "labels": labels, "cgi": cgi,
+                   "alg": m["signature_info"]["alg"], "thumbnail": !m["thumbnail"].is_null(), "failure": e2e::report(&r)["failure"]})
+        }
+        Err(e) => json!({"k": "unreadable", "kind": err_class(&e)}),
+    }
+}
+
+struct Env {
+    ctxs: Vec<Arc<Context>>,
+    assets: std::collections::HashMap<String, (String, Arc<Vec<u8>>)>,
+    ticket: AtomicUsize,
+}
+
+enum Pending {
+    Done(Value),
+    Signed(String, Vec<u8>),
+}
+
+#[allow(deprecated)]
+fn do_op(env: &Env, op: &Value) -> Pending {
+    let ctx = env.ctxs.get(op["ctx"].as_u64().unwrap_or(0) as usize);
+    let asset = |name: &Value| env.assets.get(name.as_str().unwrap_or("")).cloned().expect("asset");
+    let v = match op["op"].as_str().unwrap_or("") {
+        "read" => {
+            let (fmt, bytes) = asset(&op["asset"]);
+            match Reader::from_shared_context(ctx.expect("ctx")).with_stream(&fmt, Cursor::new(bytes.as_ref().clone())) {
+                Ok(r) => read_summary(&r),
+                Err(e) => err_value(&e),
+            }
+        }
+        "legacy_read" => {
+            let (fmt, bytes) = asset(&op["asset"]);
+            match Reader::from_stream(&fmt, Cursor::new(bytes.as_ref().clone())) {
+                Ok(r) => read_summary(&r),
+                Err(e) => err_value(&e),
+            }
+        }
+        "sign" => {
+            let (fmt, bytes) = asset(&op["asset"]);
+            let ctx = ctx.expect("ctx");
+            let res: c2pa::Result<Vec<u8>> = (|| {
+                let signer = ctx.signer()?;
+                let mut b = Builder::from_shared_context(ctx).with_definition(e2e::minimal_manifest(op["title"].as_str().unwrap_or("c24")))?;
+                let mut input = Cursor::new(bytes.as_ref().clone());
+                let mut out = Cursor::new(Vec::new());
+                b.sign(signer, &fmt, &mut input, &mut out)?;
+                Ok(out.into_inner())
+            })();
+            match res {
+                Ok(b) => return Pending::Signed(fmt, b),
+                Err(e) => err_value(&e),
+            }
+        }
+        "cancel" => {
+            ctx.expect("ctx").cancel();
+            json!({"k": "unit"})
+        }
+        "check" => json!({"k": "flag", "cancelled": ctx.expect("ctx").is_cancelled()}),
+        "signer" => match ctx.expect("ctx").signer() {
+            Ok(s) => json!({"k": "cell", "addr": (s as *const dyn c2pa::Signer as *const u8 as usize).to_string(), "alg": format!("{:?}", s.alg())}),
+            Err(e) => err_value(&e),
+        },
+        "resolver" => {
+            let r = ctx.expect("ctx").resolver();
+            json!({"k": "cell", "addr": (Arc::as_ptr(&r) as *const u8 as usize).to_string()})
+        }
+        "builder" => {
+            let before = tls_digest();
+            let res = if let Some(j) = op["json"].as_str() {
+                Settings::new().with_json(j)
+            } else if let Some(t) = op["toml"].as_str() {
+                Settings::new().with_toml(t)
+            } else {
+                Settings::new().with_value(op["path"].as_str().unwrap_or(""), op["value"].clone())
+            };
+            let after = tls_digest();
+            match res {
+                Ok(s) => json!({"k": "settings", "digest": sha(serde_json::to_string(&s).unwrap_or_default().as_bytes()), "tls_same": before == after}),
+                Err(e) => json!({"k": "err", "kind": err_class(&e), "tls_same": before == after}),
+            }
+        }
+        "tls_set" => match Settings::from_toml(op["toml"].as_str().unwrap_or("")) {
+            Ok(()) => json!({"k": "unit"}),
+            Err(e) => err_value(&e),
+        },
+        "tls_get" => json!({"k": "tls", "digest": tls_digest()}),
+        other => json!({"k": "bad-op", "op": other}),
+    };
+    Pending::Done(v)
+}
+
+fn run_thread(env: &Env, t: usize, prog: &[Value]) -> (Vec<(usize, usize, usize, Pending)>, String) {
+    let mut out = vec![];
+    for (i, op) in prog.iter().enumerate() {
+        if let Some(us) = op["pre_us"].as_u64() {
+            if us > 0 {
+                std::thread::sleep(std::time::Duration::from_micros(us));
+            }
+        }
+        for _ in 0..op["yields"].as_u64().unwrap_or(0) {
+            std::thread::yield_now();
+        }
+        let start = env.ticket.fetch_add(1, Ordering::SeqCst);
+        let res = do_op(env, op);
+        let end = env.ticket.fetch_add(1, Ordering::SeqCst);
+        out.push((i, start, end, res));
+    }
+    let _ = t;
+    (out, tls_digest())
+}
+
+fn one_run(case: &Value, concurrent: bool) -> Value {
+    let ctxs: Vec<Arc<Context>> = case["contexts"].as_array().map(|a| a.iter().map(make_context).collect()).unwrap_or_default();
+    let mut assets = std::collections::HashMap::new();
+    if let Some(m) = case["assets"].as_object() {
+        for (k, v) in m {
+            assets.insert(k.clone(), (v["fmt"].as_str().unwrap_or("image/jpeg").to_string(), Arc::new(e2e::fixture(v["fixture"].as_str().unwrap_or("C.jpg")))));
+        }
+    }
+    let env = Arc::new(Env { ctxs, assets, ticket: AtomicUsize::new(0) });
+    let progs: Vec<Vec<Value>> = case["threads"].as_array().map(|a| a.iter().map(|p| p.as_array().cloned().unwrap_or_default()).collect()).unwrap_or_default();
+    let n = progs.len();
+    let mut results: Vec<Option<(Vec<(usize, usize, usize, Pending)>, String)>> = (0..n).map(|_| None).collect();
+    if concurrent {
+        let barrier = Arc::new(Barrier::new(n));
+        let mut hs = vec![];
+        for (t, prog) in progs.iter().cloned().enumerate() {
+            let env = env.clone();
+            let barrier = barrier.clone();
+            hs.push(std::thread::spawn(move || {
+                barrier.wait();
+                run_thread(&env, t, &prog)
+            }));
+        }
+        for (t, h) in hs.into_iter().enumerate() {
+            results[t] = h.join().ok();
+        }
+    } else {
+        for (t, prog) in progs.iter().cloned().enumerate() {
+            let env = env.clone();
+            results[t] = std::thread::spawn(move || run_thread(&env, t, &prog)).join().ok();
+        }
+    }
+    let mut ops = vec![];
+    let mut tls = vec![];
+    for (t, r) in results.into_iter().enumerate() {
+        match r {
+            Some((v, d)) => {
+                tls.push(json!(d));
+                for (i, start, end, p) in v {
+                    let res = match p {
+                        Pending::Done(v) => v,
+                        Pending::Signed(fmt, b) => signed_summary(&fmt, &b),
+                    };
+                    ops.push(json!({"t": t, "i": i, "start": start, "end": end, "res": res}));
+                }
+            }
+            None => {
+                tls.push(json!("thread-panicked"));
+                ops.push(json!({"t": t, "i": -1, "start": 0, "end": 0, "res": {"k": "panic"}}));
+            }
+        }
+    }
+    let fin: Vec<Value> = env.ctxs.iter().map(|c| json!({"cancelled": c.is_cancelled()})).collect();
+    json!({"ops": ops, "final": fin, "tls": tls})
+}
+
+pub fn run(case: &Value) -> Value {
+    let main_tls_before = tls_digest();
+    let conc = one_run(case, true);
+    let seq = one_run(case, false);
+    let main_tls_after = tls_digest();
+    json!({"r": "ok", "conc": conc, "seq": seq, "main_tls_same": main_tls_before == main_tls_after})
 }
